@@ -17,10 +17,12 @@ def confirm(wt, demo, outdir):
     feat = " --features verif" if "verif::" in open(os.path.join(outdir, [f for f in os.listdir(outdir) if f.startswith("demo")][0])).read() else ""
     rc1, o1 = sh(f"cargo test --offline{feat} --test {demo} 2>&1 | tail -5", cwd=wt)
     with_change_fails = "test result: FAILED" in o1 or "panicked" in o1
-    sh("git stash push -q -- src Cargo.toml", cwd=wt)
+    patch = os.path.join(outdir, "patch.diff")     # never git stash: the stash is shared between worktrees
+    rcr, orr = sh(f"git apply -R {patch}", cwd=wt)
+    assert rcr == 0, orr
     rc2, o2 = sh(f"cargo test --offline{feat} --test {demo} 2>&1 | tail -5", cwd=wt)
     without_passes = "test result: ok" in o2
-    sh("git stash pop -q", cwd=wt)
+    sh(f"git apply {patch}", cwd=wt)
     rc3, o3 = sh("cargo test --offline --lib 2>&1 | grep -E '^test result'", cwd=wt)
     base_ok = "70 passed; 2 failed" in o3
     print(json.dumps({"demo_fails_with_change": with_change_fails, "demo_passes_without": without_passes, "baseline_70_pass": base_ok,
